@@ -123,3 +123,90 @@ def ref_binary(A, op, f, g, tau, S, a=None, b=None):
     if op == 'since_t': return since_like(A, f, g, tau, S, tau - b, tau - a, False)
     if op == 'until_t': return since_like(A, f, g, tau, S, tau + a, tau + b, True)
     raise KeyError(op)
+
+
+# ---- nested formulas over step signals (restricted) ------------------------------------------------
+POINTWISE1 = ('not', 'neg', 'abs')
+POINTWISE2 = ('and', 'or', 'implies', 'iff', 'xor', 'add', 'sub', 'mul', 'leq', 'lt', 'geq', 'gt', 'eq', 'neq')
+
+
+def _pw(A, k, p, q=None):
+    if k in ('not', 'neg'): return -p
+    if k == 'abs': return abs(p)
+    if k == 'and': return A.min([p, q])
+    if k == 'or': return A.max([p, q])
+    if k == 'implies': return A.max([-p, q])
+    if k == 'iff': return -abs(p - q)
+    if k == 'xor': return abs(p - q)
+    if k == 'add': return p + q
+    if k == 'sub': return p - q
+    if k == 'mul': return p * q
+    if k in ('leq', 'lt'): return q - p
+    if k in ('geq', 'gt'): return p - q
+    if k == 'eq': return -abs(p - q)
+    if k == 'neq': return abs(p - q)
+    raise KeyError(k)
+
+
+def derive(A, f, sigs, pred=None):
+    """step signal of a formula built from pointwise operators over ONE variable and constants: same break-points"""
+    k = f[0]
+    if k == 'var':
+        return [[t, A.lift(v)] for t, v in sigs[f[1]]]
+    vs = sorted(_vars(f))
+    if len(vs) != 1:
+        raise ValueError('derive: needs exactly one variable')
+    base = sigs[vs[0]]
+    out = []
+    for t, v in base:
+        out.append([t, point(A, f, {vs[0]: v}, pred)])
+    return out
+
+
+def _vars(f):
+    if f[0] == 'var':
+        return {f[1]}
+    out = set()
+    for c in f[1:]:
+        if isinstance(c, tuple):
+            out |= _vars(c)
+    return out
+
+
+def point(A, f, vals, pred=None):
+    """value of a pointwise formula given the current value of each variable"""
+    k = f[0]
+    if k == 'var': return A.lift(vals[f[1]])
+    if k == 'const': return A.lift(f[1])
+    if k in POINTWISE1:
+        return _pw(A, k, point(A, f[1], vals, pred))
+    if k in POINTWISE2:
+        p, q = point(A, f[1], vals, pred), point(A, f[2], vals, pred)
+        if pred is not None and k in ('leq', 'lt', 'geq', 'gt', 'eq', 'neq'):
+            ov = pred(f, p, q)
+            if ov is not None:
+                return ov
+        return _pw(A, k, p, q)
+    raise KeyError(k)
+
+
+def rho_expr(A, f, sigs, tau, pred=None):
+    """dense-time robustness at tau of: pointwise operators over any variables, and once/historically/eventually/always
+    (bounded or not) over sub-formulas that are pointwise over ONE variable."""
+    k = f[0]
+    if k in ('var', 'const') or k in POINTWISE1 or k in POINTWISE2:
+        if all(_is_pointwise(c) for c in f[1:] if isinstance(c, tuple)):
+            return point(A, f, {v: val(A, sigs[v], tau) for v in _vars(f)}, pred)
+        if k in POINTWISE1:
+            return _pw(A, k, rho_expr(A, f[1], sigs, tau, pred))
+        p, q = rho_expr(A, f[1], sigs, tau, pred), rho_expr(A, f[2], sigs, tau, pred)
+        return _pw(A, k, p, q)
+    d = derive(A, f[1], sigs, pred)
+    bounds = [c for c in f[1:] if isinstance(c, int)]
+    a, b = (bounds + [None, None])[:2]
+    return ref_unary(A, k, d, tau, a, b)
+
+
+def _is_pointwise(f):
+    return f[0] in ('var', 'const') or ((f[0] in POINTWISE1 or f[0] in POINTWISE2)
+                                        and all(_is_pointwise(c) for c in f[1:] if isinstance(c, tuple)))
